@@ -84,7 +84,7 @@ func genMsgSize(rt *rapid.T, win int) int {
 	case 5: // around the window
 		return max(0, win-5+rapid.IntRange(-3, 3).Draw(rt, "msg_d"))
 	case 6, 7: // larger than the window, up to 3x
-		hi := min(3*win, vk.Pick(400<<10, 6<<20))
+		hi := min(3*win, vk.Pick(256<<10, 2<<20))
 		return rapid.IntRange(min(win, hi), hi).Draw(rt, "msg")
 	default:
 		return rapid.IntRange(0, 200000).Draw(rt, "msg")
@@ -102,7 +102,7 @@ func genPlan(role string) func(rt *rapid.T) Plan {
 		if p.StreamWin >= 65535 {
 			win = int(p.StreamWin)
 		}
-		n := rapid.IntRange(4, vk.Pick(40, 300)).Draw(rt, "nops")
+		n := rapid.IntRange(4, vk.Pick(32, 120)).Draw(rt, "nops")
 		maxStreams := vk.Pick(3, 8)
 		streams := 0
 		for i := 0; i < n; i++ {
@@ -743,7 +743,7 @@ func runPlan(t *testing.T, p Plan) (out outcome) {
 	return out
 }
 
-const rule = "plans of <=40/300 ops over <=3/8 streams: the peer queues gRPC messages (0 B .. 3x the stream window, capped at 400 KiB/6 MiB; sizes around the window +-3) with DATA chunk sizes 1..16384 and padding {none,0,1,7,100,255}, " +
+const rule = "plans of <=32/120 ops over <=3/8 streams: the peer queues gRPC messages (0 B .. 3x the stream window, capped at 256 KiB/2 MiB; sizes around the window +-3) with DATA chunk sizes 1..16384 and padding {none,0,1,7,100,255}, " +
 	"the application reads in plan-controlled steps (whole messages like grpc, or chunks of 1..300000 bytes), END_STREAM, virtual sleeps 1us..1s and manual/immediate PING acks (drive the BDP estimator), 25% of the ops without waiting for quiescence; " +
 	"configured stream/connection windows in {default, 64 KiB, 1 MiB, random, ~2^31-1}, BDP estimation on (2/3) or off; rare non-conforming overrun ops (own class, no oracle on that stream). " +
 	"non-trivial = a message larger than the stream window was queued and the application was observed blocked in a read waiting for the peer (i.e. it was read in several frames), or padded frames were used while a reader was blocked"
